@@ -226,6 +226,9 @@ pub fn engine_violates_own_order_by(sql: &str, names: &[String], rows: &[Vec<V>]
 }
 
 /// Full comparison of one program on a list of instances.
+/// dialects whose emitted column list is checked statically (without execution); set once by the check that wants it
+pub static STATIC_NAME_DIALECTS: std::sync::OnceLock<Vec<Dialect>> = std::sync::OnceLock::new();
+
 pub fn check_program(db: &Db, prog: &Program, insts: &[Inst]) -> Outcome {
     let text = pr_program(prog);
     let mut out = Outcome { text: text.clone(), ..Default::default() };
@@ -265,6 +268,30 @@ pub fn check_program(db: &Db, prog: &Program, insts: &[Inst]) -> Outcome {
                     });
                 }
                 seen_fail = true;
+            }
+        }
+    }
+    // static column list of the statement emitted for dialects that cannot be executed here (set by C05): with the
+    // schema of t and u known, the reference binder derives the names a statement returns, `* EXCLUDE (…)` included
+    if let (Some(rq), Some(ds)) = (&_rq, STATIC_NAME_DIALECTS.get()) {
+        if !seen_fail {
+            for d in ds {
+                let r = rq.clone();
+                let Ok(Ok(sql)) = guard(|| prqlc::rq_to_sql(r, &opts(*d))) else { continue };
+                let Some(names) = crate::binder::output_columns(&sql, *d, &[("t", &["a", "b"]), ("u", &["a", "d"])]) else {
+                    out.undecided.entry("static column list not derivable".into()).and_modify(|n| *n += 1).or_insert(1);
+                    continue;
+                };
+                out.decided += 1;
+                let exp: Vec<Option<String>> = final_frame.cols.iter().map(|c| c.name.clone()).collect();
+                let bad = if names.len() != exp.len() {
+                    Some((Kind::Arity, format!("result has {} columns {:?}, the final frame has {}", names.len(), names, exp.len())))
+                } else {
+                    exp.iter().zip(&names).position(|(e, g)| e.as_ref().map(|e| !e.eq_ignore_ascii_case(g) && !g.starts_with("?column")).unwrap_or(false)).map(|k| (Kind::Names, format!("column {k} is called {:?}, PRQL name is {:?}", names[k], exp[k].clone().unwrap_or_default())))
+                };
+                if let Some((kind, msg)) = bad {
+                    out.findings.push(Finding { kind, dialect: dname(*d), inst: None, msg, sql: sql.clone(), expected: serde_json::to_string(&exp).unwrap(), got: serde_json::to_string(&names).unwrap(), rows: None });
+                }
             }
         }
     }
